@@ -23,6 +23,9 @@ RULES = {
     "C13-T1": "a literal refinement table has the oriented boundary of the element it replaces (interior edges cancel); new edges = edges of new faces",
     "C13-E1": "__exit__ prepares and re-instantiates with the class's dimension; triangle-only code is dominated by triangulate(); in-place edits clear the connectivity",
     "C13-H1": "the editing block must not mutate containers shared with the input mesh, and a wrapper returns the re-instantiated mesh, not the stale input",
+    "C13-H2": "re-preparing the edited data on exit adds the sides of the new faces as edges and flags no generated edge as hard (shared with C02-H1)",
+    "C13-S1": "editor typestate: a method that cuts every edge and then looks up the midpoint of every face side needs the edge list to hold every "
+              "side of every face; it must (re)complete the edges after the last operation that may add faces without their edges",
 }
 
 
@@ -34,6 +37,10 @@ def run(ctx):
     t1_refinement_tables(ctx)
     e1_protocol(ctx)
     h1_input_not_half_updated(ctx)
+    from .c02 import h1_hard_edges, h2_hard_edges_typestate
+    h1_hard_edges(ctx, "C13-H2")
+    h2_hard_edges_typestate(ctx, "C13-H2")
+    s1_edge_completeness(ctx)
 
 
 # ---------------------------------------------------------------------------- I1
@@ -511,3 +518,95 @@ def h1_input_not_half_updated(ctx):
                   "corners and connectivity (half-updated)")
     else:
         ctx.fail("C13-H1", site, "split_double_boundary_edges_triangles no longer edits through `with SurfaceSubdivision(mesh) as ...`", "")
+
+
+# ---------------------------------------------------------------------------- S1
+def _adds_faces_without_edges(fn):
+    """does the method store / append face rows into self.mesh.faces without appending edges in the same block?"""
+    for st in au.stmts(fn.body):
+        is_face_write = (isinstance(st, ast.Expr) and isinstance(st.value, ast.Call) and au.call_tail(st.value) == "append"
+                         and au.src(st.value.func.value) == "self.mesh.faces") or \
+                        (isinstance(st, ast.Assign) and isinstance(st.targets[0], ast.Subscript) and au.src(st.targets[0].value) == "self.mesh.faces")
+        if is_face_write:
+            fnbody_edges = any(au.call_tail(c) in ("append", "extend") and au.src(c.func.value) == "self.mesh.edges" for c in au.calls(fn))
+            blk, _ = au.enclosing_block(st)
+            same_block = any(au.call_tail(c) in ("append",) and au.src(c.func.value) == "self.mesh.edges" for s in blk for c in au.calls(s))
+            if not same_block:
+                # edges appended elsewhere in the same straight-line function body (split_face_as_fan) also count
+                top_level = any(any(au.call_tail(c) == "append" and au.src(c.func.value) == "self.mesh.edges" for c in au.calls(s)) for s in fn.body)
+                if not top_level:
+                    return True
+    return False
+
+
+def _rebinds_mesh_without_edges(fn):
+    """`self.mesh = X` where X is a fresh RawMeshData whose edges are never filled in this method"""
+    for st in au.stmts(fn.body):
+        if isinstance(st, ast.Assign) and au.is_self_attr(st.targets[0], "mesh") and isinstance(st.value, ast.Name):
+            x = st.value.id
+            filled = any((isinstance(s, ast.AugAssign) and au.src(s.target) == f"{x}.edges") or
+                         any(au.call_tail(c) in ("append", "extend") and au.src(c.func.value) == f"{x}.edges" for c in au.calls(s))
+                         for s in au.stmts(fn.body))
+            if not filled:
+                return True
+    return False
+
+
+def s1_edge_completeness(ctx):
+    from ..flow import Flow, TOP
+    repo = ctx.repo
+    cls = repo.cls(SUB, "SurfaceSubdivision")
+    methods = {st.name: st for st in cls.body if isinstance(st, ast.FunctionDef)}
+    # summaries, to a fixpoint over self-calls: may the method leave faces whose sides are not all edges?
+    breaks = {n: (_adds_faces_without_edges(f) or _rebinds_mesh_without_edges(f)) for n, f in methods.items()}
+    completes_last = {}
+    changed = True
+    while changed:
+        changed = False
+        for n, f in methods.items():
+            if breaks[n]:
+                continue
+            for c in au.calls(f):
+                if isinstance(c.func, ast.Attribute) and au.is_self_attr(c.func) and breaks.get(c.func.attr):
+                    breaks[n] = True
+                    changed = True
+    # methods that need complete edges: build a dict keyed by keyify(edge) while iterating self.mesh.edges / id_edges and
+    # read it with keyify of face sides
+    needing = []
+    for n, f in methods.items():
+        iter_edges = [st for st in au.stmts(f.body) if isinstance(st, ast.For) and au.src(st.iter) in ("self.mesh.edges", "self.mesh.id_edges")]
+        lookups = [x for x in au.walk(f) if isinstance(x, ast.Subscript) and isinstance(x.ctx, ast.Load) and isinstance(x.slice, ast.Call)
+                   and au.call_tail(x.slice) == "keyify" and isinstance(x.value, ast.Name)]
+        if iter_edges and lookups:
+            needing.append((n, f, iter_edges))
+    ctx.require_count("C13-S1 methods cutting every edge", len(needing), 2)
+    for n, f, iter_edges in needing:
+        bad = []
+
+        def stmt(state, st, _bad=bad):
+            if state is TOP:
+                return state
+            if hasattr(st, "loop"):
+                if au.src(st.iter) in ("self.mesh.edges", "self.mesh.id_edges") and "complete" not in state:
+                    _bad.append(st.loop)
+                return state
+            for c in sorted(au.calls(st), key=lambda c: (c.lineno, c.col_offset)):
+                if isinstance(c.func, ast.Attribute):
+                    if c.func.attr in ("_complete_edges_from_faces", "prepare") and au.src(c.func.value) == "self.mesh":
+                        state = state | {"complete"}
+                    elif au.is_self_attr(c.func) and breaks.get(c.func.attr):
+                        state = state - {"complete"}
+            if isinstance(st, ast.Assign) and au.is_self_attr(st.targets[0], "mesh"):
+                # a freshly built mesh: complete iff its edges were filled from the edges of its faces in this method (C13-T1 checks that table)
+                x = st.value.id if isinstance(st.value, ast.Name) else None
+                filled = x is not None and any(isinstance(s2, ast.AugAssign) and au.src(s2.target) == f"{x}.edges" for s2 in au.stmts(f.body))
+                state = (state | {"complete"}) if filled else (state - {"complete"})
+            return state
+        Flow(stmt).run(f.body, frozenset())
+        site = ctx.site(SUB, f)
+        ctx.check(not bad, "C13-S1", site,
+                  f"SurfaceSubdivision.{n} cuts `every edge` of a mesh whose edge list may miss sides of its faces",
+                  "the method halves every edge of self.mesh.edges and then looks up the midpoint of every side of every face; "
+                  "faces added by triangulate() (quad diagonals) or by a previous 1-to-3-quads step have sides that are not in the "
+                  "edge list yet (edges are only completed by prepare()): KeyError on any quad mesh / on the second repetition",
+                  note=f"{n}: edges completed before being cut")
